@@ -770,7 +770,10 @@ def run(ctx):
                 "domains, queries interleaved to build caches) with a full probe at the end; chains and cycles of length 8..12 around "
                 "max_hierarchy_level=10 and 0..5 around bounds 0..3; all truth assignments of <= 4 link conditions on a diamond; g() arities, "
                 "build_role_links / incremental with short/long rules; 4000 seeded random histories; 300 Enforcer histories (g(r.sub,p.sub), "
-                "g(r.sub,p.sub,r.dom)); non-trivial = a has_link/g answer True between different names; distinct by (class, level, history prefix)"
+                "g(r.sub,p.sub,r.dom)); 768 clear-and-rebuild histories of the conditional managers (all truth assignments of <= 3 conditions registered before "
+                "the clear, links back with the same / flipped / no parameters); 300 Enforcer histories on conditional role definitions (g = _, _, (_, _) and "
+                "g = _, _, _, (_, _)): grouping rules with parameters, condition functions registered through the enforcer, reload / build_role_links / rejected "
+                "reload / clear + load / auto-build off + load + build / filtered load; non-trivial = a has_link/g answer True between different names; distinct by (class, level, history prefix)"
             )
         else:
             n4 = ["a", "b", "c", "d"]
@@ -783,7 +786,7 @@ def run(ctx):
             nenf = 3000
             res.rule = (
                 "as quick, plus all 65536 digraphs on 4 names x 16 queries x 2 orders (RoleManager), 60000 seeded random histories of length "
-                "<= 30 over 6 names x 3 domains, 3000 Enforcer histories"
+                "<= 30 over 6 names x 3 domains, 3000 Enforcer histories (and 3000 on the conditional role definitions)"
             )
         res.exhaustive = True
         rm_corr.run_all(ctx, res, "C03", hs, chunk=300)
